@@ -13,7 +13,7 @@
     records, B's subscriptions and connection records, clock and timer).  Nameplate
     row ids (global AUTOINCREMENT, never visible to clients) are abstracted. *)
 From MW Require Import Base Store Monad Usage Server Websocket Service Findings Inv Obs
-     ProtoFacts StepFacts IsoFacts NonInterference NonInterferenceR NonInterferenceX Inst_Params.
+     ProtoFacts StepFacts IsoFacts NonInterference NonInterferenceR NonInterferenceX Inst_Params ArrivalFacts.
 Local Open Scope list_scope.
 
 (** what B observes and what is stored for B is the same whether or not clients of other apps are active *)
@@ -176,4 +176,12 @@ Theorem C06_noninterference_xs_nonvacuous : ltac:(let t := type of noninterferen
 Proof. exact noninterference_xs_nonvacuous. Qed.
 Check C06_noninterference_xs_nonvacuous.
 Print Assumptions C06_noninterference_xs_nonvacuous.
+
+(** * send stamps too (quoted by type from ArrivalFacts.v) *)
+
+(** the app's frames WITH their send stamps agree in the two runs *)
+Theorem C06_noninterference_x_stamped : ltac:(let t := type of noninterference_x_stamped in exact t).
+Proof. exact noninterference_x_stamped. Qed.
+Check C06_noninterference_x_stamped.
+Print Assumptions C06_noninterference_x_stamped.
 
